@@ -11,7 +11,7 @@ RULE = ("generated programs x seeded comment placements K (full-line before/afte
         "non-trivial = >= 5 comments of which >= 1 inside a continuation or trailing"
         ' Correspondence: Fp.Reader item stream == real reader on every second commented source (both comment settings).')
 ASSUMPTIONS = []
-TIE_MODULES = ["FparserModel.Reader", "FparserModel.Block"]
+TIE_MODULES = ["FparserModel.Reader", "FparserModel.Block", "FparserModel.Print", "FparserModel.Generated.PrintTables", "FparserModel.Props.Print"]
 
 DIRECTIVE_PREFIXES = ("!$omp", "!dir$", "!$acc")
 
@@ -139,4 +139,5 @@ def cases(tier, seed):
 
 
 def run(tier, rep, st):
+    util.sub_cosim(rep, tier, "cosim_print", "Fp.Print", 100, 1000)
     engine.run_cases(__name__, cases(tier, rep.seed), rep)
